@@ -104,11 +104,14 @@ func baseConfig(tier string) *Config {
 		TimeoutMs: 20_000,
 		Workers:   runtime.NumCPU(),
 		SolverBin: envOr("VERIF_SOLVER", "z3-new"),
+		// wall-clock budget per harness: exceeding it truncates the exploration (inconclusive)
+		WallBudget: 4 * time.Minute,
 	}
 	if tier == "thorough" {
 		cfg.MaxSteps = 20_000_000
 		cfg.MaxPaths = 1_500_000
 		cfg.TimeoutMs = 120_000
+		cfg.WallBudget = 25 * time.Minute
 	}
 	if v := os.Getenv("VERIF_WORKERS"); v != "" {
 		if n, err := strconv.Atoi(v); err == nil && n > 0 {
